@@ -53,8 +53,12 @@ def check(ctx):
     f_solve = repo.func(SOLVER, "TDGLSolver.solve")
     # tdgl.solve == TDGLSolver(...) ; .solve()
     body = [s for s in f_solve_api.node.body if not (isinstance(s, ast.Expr) and isinstance(s.value, ast.Constant))]
-    ok = len(body) == 2 and isinstance(body[0], ast.Assign) and norm(body[0].value.func) == "TDGLSolver" \
-        and isinstance(body[1], ast.Return) and norm(body[1].value) == f"{norm(body[0].targets[0])}.solve()"
+    # canonical reading (src: single-use temporaries are inlined): `return TDGLSolver(...).solve()`
+    ok = (len(body) == 1 and isinstance(body[0], ast.Return) and isinstance(body[0].value, ast.Call) and not body[0].value.args
+          and isinstance(body[0].value.func, ast.Attribute) and body[0].value.func.attr == "solve"
+          and isinstance(body[0].value.func.value, ast.Call) and norm(body[0].value.func.value.func) == "TDGLSolver") or (
+        len(body) == 2 and isinstance(body[0], ast.Assign) and isinstance(body[0].value, ast.Call) and norm(body[0].value.func) == "TDGLSolver"
+        and isinstance(body[1], ast.Return) and norm(body[1].value) == f"{norm(body[0].targets[0])}.solve()")
     ctx.ob("R19.1", "tdgl.solve constructs the solver (all constructor validation) and only then calls solve()", ok,
            detail=[norm(s)[:100] for s in body], where=f_solve_api.fq, construct="tdgl.solve body", loc=loc(f_solve_api, f_solve_api.node),
            message="tdgl.solve no longer is `TDGLSolver(...)` followed by `.solve()`", consequence="validation order is unknown")
